@@ -418,9 +418,10 @@ class GrowthCtx:
     C15, ...): everything is forwarded to the real Ctx (coverage counters, add_tlc, add_part, samples), except that a
     mismatch found by the part is reported as drift (see Ctx.drift), never as a violation of the property."""
 
-    def __init__(self, ctx, area):
+    def __init__(self, ctx, area, gate_kinds=()):
         object.__setattr__(self, "_ctx", ctx)
         object.__setattr__(self, "_area", area)
+        object.__setattr__(self, "_gate", set(gate_kinds))   # replay-object kinds that ARE within the property
 
     def __getattr__(self, k):
         if k == "violations":   # "is this part clean so far?" (gates the part's own self-tests)
@@ -431,6 +432,10 @@ class GrowthCtx:
         setattr(self._ctx, k, v)
 
     def violation(self, what, replay_obj, dev=None):
+        if dev is not None and self._ctx.known.is_open(self._ctx.prop, dev):
+            return self._ctx.violation(what, replay_obj, dev=dev)       # an open finding seen through this part
+        if isinstance(replay_obj, dict) and replay_obj.get("kind") in self._gate:
+            return self._ctx.violation(what, replay_obj, dev=dev)
         return self._ctx.drift(self._area, what, replay_obj)
 
     def require_tlc_ok(self, name, r):
@@ -439,10 +444,11 @@ class GrowthCtx:
                             {"kind": "tlc", "run": name, "violation": r.violation, "name": r.violated_name, "trace": r.trace[:400]})
 
 
-def run_growth(ctx, area, fn, *args):
-    """Runs a growth part; neither a mismatch nor trouble inside it can fail the property's check."""
+def run_growth(ctx, area, fn, *args, gate_kinds=()):
+    """Runs a growth part; neither a mismatch nor trouble inside it can fail the property's check - except mismatches
+    whose replay object is of a kind listed in gate_kinds (the slice of the part that lies within the property)."""
     try:
-        return fn(GrowthCtx(ctx, area), *args)
+        return fn(GrowthCtx(ctx, area, gate_kinds), *args)
     except ToolError as e:
         ctx.drift(area, "growth part did not complete (tool trouble): %s" % str(e)[:500], None)
     except Exception as e:   # noqa
